@@ -1090,4 +1090,145 @@ theorem many_words (int : List Nat) (frac : Option (List Nat)) (E : Int) (mant :
         push_cast
         omega
 
+/-- **the truncated `Number`** (decimal, separator/prefix-free, release): for an accepted `parse_number` with
+`many_digits = true`, the slices are plain, there are more than 19 significant digits, `mantissa = w` is the value of
+the first 19 of them (`10^18 ≤ w < 10^19`) and `exponent = q` is such that the exact value `V` of the digit content
+satisfies `w·10^q ≤ V < (w+1)·10^q` -/
+theorem number_truncated_of_parse (c : Cfg) (hS : RelClass c) (hpre : c.basePrefix = 0) (hr : c.mantissaRadix = 10)
+    (hb : c.exponentBase = 10) (hre : c.exponentRadix ≤ 255) (hbc : c.bytesContiguous = true)
+    (isPartial : Bool) (o : POpts) (hdp : charToDigit o.dp 10 = none) (b : Bytes) (neg fv : Bool)
+    (hn : NoSep c b.slc) (h256 : ∀ x ∈ b.slc, x < 256) (hlen : b.slc.length < 2 ^ 60) (n : Number) (cnt : Nat)
+    (h : parseNumber c isPartial o b neg fv = .ok (n, cnt)) (hmany : n.manyDigits = true) :
+    PlainSlices c n ∧ 19 < (sigBytes n.integer n.fraction).length ∧
+    n.mantissa = ofDigits 10 (dv 10 ((sigBytes n.integer n.fraction).take 19)) ∧
+    10 ^ 18 ≤ n.mantissa ∧ n.mantissa < 10 ^ 19 ∧
+    n.exponent = ((sigBytes n.integer n.fraction).length : Int) - 19 + n.explicitExp - ((n.fraction.getD []).length : Int) ∧
+    -(2 ^ 40 : Int) ≤ n.explicitExp ∧ n.explicitExp ≤ 2 ^ 40 := by
+  obtain ⟨ip, fp, ht, hstart, hnI, hids, hnF, hfrac, _, _⟩ := parseNumber_split c hS hpre isPartial o b neg fv hn n cnt h
+  obtain ⟨explicit, ex0, endIdx, x2, x3, hpos, hmc⟩ := tailOf_many c hS hre isPartial o neg ip fp
+    (by rw [hstart]; exact hn) (by rw [hids]; exact (hn.drop _).take _)
+    (by
+      intro fd hfd
+      rw [hfrac] at hfd
+      split at hfd
+      · injection hfd with hfd; rw [← hfd]; exact (hn.drop _).take _
+      · cases hfd) n cnt ht hmany
+  rw [hbc] at hmc
+  simp only [Bool.not_true, Bool.and_false] at hmc
+  obtain ⟨m1, m2, m3, mcase⟩ := manyCore_facts _ _ _ _ _ _ _ _ _ _ _ _ hpos n cnt hmc
+  rw [hstart, hnI, hnF, hr, u64Step_decimal] at hpos
+  rw [hr, u64Step_decimal, hids, hnI, hfrac] at mcase
+  rw [hids] at m1
+  rw [hfrac] at m2
+  unfold fracRun hasPoint intEnd at *
+  rw [hr] at hpos mcase m1 m2
+  have sc : ∀ x : Int, scaleVal c x = x := scaleVal_same_base c (by rw [hr, hb])
+  simp only [sc] at mcase
+  have hz := zfTerm_cases o hdp b.slc b.index
+  simp only at hz
+  generalize hs : b.slc = s at *
+  generalize hrest : s.drop b.index = rest at *
+  generalize hdsI : digitsPrefix 10 rest = dsI at *
+  obtain ⟨ri1, ri2, ri3, ri4⟩ := run_slice 10 rest
+  rw [hdsI] at ri1 ri2 ri3 ri4
+  have hzi : zerosPrefix rest ≤ dsI.length := by rw [← hdsI]; exact zerosPrefix_le_run (by decide) rest
+  have hztake : zerosPrefix (rest.take dsI.length) = zerosPrefix rest := zerosPrefix_take rest dsI.length hzi
+  have hmemrest : ∀ x ∈ rest, x < 256 := fun x hx => h256 x (by rw [← hrest] at hx; exact List.mem_of_mem_drop hx)
+  have h60 : (2 : Nat) ^ 60 = 1152921504606846976 := by norm_num
+  -- the two cases of the decimal point give the fraction slice
+  obtain ⟨frac, hfr, hvf, h256f, hfd, hNgt⟩ :
+      ∃ frac : Option (List Nat), n.fraction = frac ∧ (∀ fr, frac = some fr → ValidDigits 10 fr) ∧
+        (∀ fr, frac = some fr → ∀ x ∈ fr, x < 256) ∧
+        (numberLit c n).fracDigits = dv 10 (frac.getD []) ∧
+        19 < (sigBytes (rest.take dsI.length) frac).length := by
+    by_cases hpt : (s[b.index + dsI.length]? == some o.dp) = true
+    · simp only [hpt, if_true] at m2 hpos mcase
+      generalize hk : b.index + dsI.length + 1 = k at *
+      obtain ⟨rf1, rf2, rf3, rf4⟩ := run_slice 10 (s.drop k)
+      generalize hdsF : digitsPrefix 10 (s.drop k) = dsF at *
+      refine ⟨some ((s.drop k).take dsF.length), m2, ?_, ?_, ?_, ?_⟩
+      · intro fr hfr; injection hfr with hfr; rw [← hfr]; exact rf3
+      · intro fr hfr x hx; injection hfr with hfr; rw [← hfr] at hx
+        exact h256 x (List.mem_of_mem_drop (List.mem_of_mem_take hx))
+      · show (match n.fraction with | some fd => sliceDigits c .fraction fd | none => []) = _
+        rw [m2]
+        simp only [Option.getD_some]
+        rw [sliceDigits_run c hS .fraction _ ((hn.drop _).take _), hr, rf4, rf2]
+      · -- more than 19 significant digits
+        unfold sigBytes
+        simp only
+        rw [skipZeros_eq_drop, hztake]
+        by_cases hall : zerosPrefix rest = dsI.length
+        · have hnil : List.drop (zerosPrefix rest) (List.take dsI.length rest) = [] := by
+            apply List.eq_nil_of_length_eq_zero
+            rw [List.length_drop, ri1]; omega
+          rw [if_pos hnil, skipZeros_eq_drop, List.length_drop, rf1]
+          have hzf : zerosPrefix (s.drop k) ≤ dsF.length := by rw [← hdsF]; exact zerosPrefix_le_run (by decide) _
+          rw [zerosPrefix_take _ _ hzf]
+          have := hz.2.1 hall hpt
+          rw [this, hall] at hpos
+          omega
+        · have hne : List.drop (zerosPrefix rest) (List.take dsI.length rest) ≠ [] := by
+            intro h0
+            have := congrArg List.length h0
+            rw [List.length_drop, ri1] at this
+            simp at this; omega
+          rw [if_neg hne, List.length_append, List.length_drop, ri1, rf1]
+          have := hz.1 (by omega)
+          rw [this] at hpos
+          omega
+    · simp only [hpt, Bool.false_eq_true, if_false, List.length_nil, Nat.add_zero] at m2 hpos mcase
+      refine ⟨none, m2, (by intro fr hfr; cases hfr), (by intro fr hfr; cases hfr), ?_, ?_⟩
+      · show (match n.fraction with | some fd => sliceDigits c .fraction fd | none => []) = _
+        rw [m2]; rfl
+      · unfold sigBytes
+        simp only
+        rw [skipZeros_eq_drop, hztake, List.length_drop, ri1]
+        by_cases hall : zerosPrefix rest = dsI.length
+        · have := hz.2.2 hall hpt
+          rw [this, hall] at hpos
+          omega
+        · have := hz.1 (by omega)
+          rw [this] at hpos
+          omega
+  have hint : (numberLit c n).intDigits = dsI := by
+    show sliceDigits c .integer n.integer = dsI
+    rw [m1, sliceDigits_run c hS .integer _ (by rw [← hrest]; exact (hn.drop _).take _), hr, ri4]
+  have hps : PlainSlices c n := by
+    refine ⟨by rw [hr, m1]; exact ri3, ?_, ?_, ?_, by rw [hint, hr, m1, ri2], by rw [hfd, hr, hfr]⟩
+    · intro fr hfr'; rw [hr]; exact hvf fr (by rw [← hfr, hfr'])
+    · intro x hx; rw [m1] at hx; exact hmemrest x (List.mem_of_mem_take hx)
+    · intro fr hfr' x hx; exact h256f fr (by rw [← hfr, hfr']) x hx
+  -- the words
+  rw [m1, hfr]
+  have mc' : _ := mcase
+  rw [← m2, hfr] at mc'
+  obtain ⟨w1, w2⟩ := many_words (rest.take dsI.length) frac explicit n.mantissa n.exponent ri3 hvf
+    (fun x hx => hmemrest x (List.mem_of_mem_take hx)) h256f hNgt (by
+      have e : ((rest.take dsI.length).length : Int) = (dsI.length : Int) := by rw [ri1]
+      rw [e]; exact mc')
+  have hvs : ValidDigits 10 (sigBytes (rest.take dsI.length) frac) := valid_sigBytes ri3 hvf
+  have htlen : ((sigBytes (rest.take dsI.length) frac).take 19).length = 19 := by
+    rw [List.length_take]; omega
+  have hwlt : n.mantissa < 10 ^ 19 := by
+    rw [w1]
+    have := ofDigits_dv_lt (valid_take hvs 19)
+    rwa [htlen] at this
+  have hwge : 10 ^ 18 ≤ n.mantissa := by
+    rw [w1]
+    obtain ⟨c0, cs, hsg⟩ : ∃ c0 cs, sigBytes (rest.take dsI.length) frac = c0 :: cs := by
+      cases hsg : sigBytes (rest.take dsI.length) frac with
+      | nil => rw [hsg] at hNgt; simp at hNgt
+      | cons c0 cs => exact ⟨c0, cs, rfl⟩
+    have h48 := sigBytes_head hsg
+    have hc0 : c0 < 256 := by
+      have hm : c0 ∈ sigBytes (rest.take dsI.length) frac := by rw [hsg]; exact List.mem_cons_self ..
+      rcases mem_sigBytes hm with h | ⟨fr, hfr', h⟩
+      · exact hmemrest c0 (List.mem_of_mem_take h)
+      · exact h256f fr hfr' c0 h
+    have := ofDigits_take_pos hsg h48 hc0 19 (by decide)
+    rw [htlen] at this
+    exact this
+  exact ⟨hps, hNgt, w1, hwge, hwlt, by rw [w2, m3], by rw [m3]; exact x2, by rw [m3]; exact x3⟩
+
 end LexVerif.Props.C01Number
